@@ -15,7 +15,7 @@ LEVEL_TEXT = ('for every operation of the fault-free trace and every applicable 
               'faulted trace (pairs); every run must terminate within 20x the fault-free length and end with the argument fully trashed (in any candidate) or untouched, exit status 0 iff '
               'trashed, pre-existing pairs unchanged')
 LEVEL_NOTE = 'faults are injected at Python os-call granularity with errnos from a per-syscall table; triples of faults and errnos outside the table are not covered'
-RULE = ('scenarios: kind {file, tree, symlink} x route {home cold, home warm, .Trash/uid, .Trash-uid, home fallback, home trash whose info is a regular file}; level 1 = all ops x all applicable errnos + sticky faults on mutating '
+RULE = ('scenarios: kind {file, tree, symlink} x route {home cold, home warm, .Trash/uid, .Trash-uid, home fallback, home trash whose info is a regular file, home trash without info/, .Trash-uid + enabled fallback} + a directory that contains its only candidate trash directory (rename answers EINVAL by itself); level 1 = all ops x all applicable errnos + sticky faults on mutating '
         'ops and on stat/lstat; level 2 quick = second fault on mutating ops with {EACCES, ENOSPC, EIO} for 4 scenarios, thorough = all ops x all errnos for 4 scenarios and the quick scope elsewhere; '
         'non-trivial = the fault was delivered and changed the trace; distinct = (route, faulted op(s), errno(s), outcome)')
 LEVEL2_SCOPE = {'quick': 'second fault on mutating operations with errno in {EACCES, ENOSPC, EIO} for 4 scenarios (file/home-cold, file/fallback, tree/.Trash-uid, link/.Trash/uid)',
@@ -25,11 +25,12 @@ KINDS = ['file', 'tree', 'ldir']
 
 
 def dimensions(tier):
-    return {'kinds': 3, 'routes': 8, 'errno_table_size': sum(len(v) for v in faults.ERRNOS.values())}
+    return {'kinds': 3, 'routes': 9, 'errno_table_size': sum(len(v) for v in faults.ERRNOS.values())}
 
 
 def scenarios(tier):
-    return [{'kind': k, 'route': r} for r in ROUTES for k in KINDS]
+    # + a directory that contains the only candidate trash directory: rename(2) answers EINVAL without any injected fault
+    return [{'kind': k, 'route': r} for r in ROUTES for k in KINDS] + [{'kind': 'tree', 'route': 'inside-entry'}]
 
 
 def level2_filter(tier, scn, op, errno, mut):
@@ -45,6 +46,8 @@ def level2_filter(tier, scn, op, errno, mut):
 
 def _layout(s):
     route = s['route']
+    if route == 'inside-entry':
+        return '/home/u/w', '/home/u/w/x/T'
     B = '/home/u/w' if route.startswith('home') else '/mnt/v1/w'
     td = {'home-cold': scen.HOME_TRASH, 'home-warm': scen.HOME_TRASH, 'top': '/mnt/v1/.Trash/0', 'alt': '/mnt/v1/.Trash-0', 'fallback': scen.HOME_TRASH, 'home-info-file': scen.HOME_TRASH, 'home-info-missing': scen.HOME_TRASH, 'alt+fallback': '/mnt/v1/.Trash-0'}[route]
     return B, td
@@ -55,6 +58,8 @@ def make_world(s):
     W = scen.base_world(mounts=['/', '/mnt/v1'], cwd=B)
     W.dir(B)
     scen.add_entry(W, B + '/x', s['kind'])
+    if s['route'] == 'inside-entry':
+        scen.add_trash_dir(W, td)
     if s['route'] == 'top':
         W.dir('/mnt/v1/.Trash', mode=0o1777)
     if s['route'] == 'fallback':
@@ -75,6 +80,8 @@ def command(s):
     if s['route'] in ('fallback', 'alt+fallback'):
         argv.append('--home-fallback')
         env['TRASH_ENABLE_HOME_FALLBACK'] = '1'
+    if s['route'] == 'inside-entry':
+        argv += ['--trash-dir', 'x/T']
     return {'argv': argv + ['x'], 'env': env, 'cwd': B, 'now': '2024-05-06T07:08:09', 'plan': {'resolve': 'all'}}
 
 
